@@ -774,6 +774,13 @@ pub fn wide() -> Vec<DefSpec> {
         vec![step(&[], &[("OwnBox", f), ("OwnBox", f), ("Pod4", t), ("Pod4", t)], 0), step(&[0], &[("Pod4", t), ("Pod4", t)], 0)],
         vec![step(&[], &[("Own24", f), ("Pod2", t), ("Pod2", t), ("Own8", f)], 1), step(&[0], &[("Pod8", t), ("Pod8", t), ("Pod1", t)], 0), step(&[2], &[], 0)],
     ];
+    // a cancelled addition (a 4-aligned type) that is more aligned than every datum of every variant:
+    // it still counts for the alignment of all the record types
+    {
+        let mut g = vec![step(&[], &[("Pod1", t), ("Pod2", t), ("Own3", f)], 0), step(&[0], &[("Own1", f)], 0)];
+        g[0].ghost = true;
+        z.push(g);
+    }
     // every pattern of three additions in one step (u = may stay uninitialised, m = mandatory),
     // the first of them re-using the bytes of a removed datum
     for p in 0..8u8 {
